@@ -4,7 +4,7 @@
    (tied to the skeleton object files by harness/statics.py, which regenerates
    Gen_Statics.v on every run of bin/vcheck C19). *)
 From Coq Require Import List PArith Bool.
-From A1 Require Import Conc.Reach Conc.ReachProofs Conc.Interleave Conc.InterleaveProofs Conc.Link Conc.Descr.
+From A1 Require Import Conc.Reach Conc.ReachProofs Conc.Interleave Conc.InterleaveProofs Conc.Link Conc.Descr Conc.DescrClosure.
 Import ListNotations.
 
 (* -- the closure computed by the checker is graph reachability -- *)
@@ -135,3 +135,52 @@ Theorem C19_statics_and_descr_imply_irrelevant :
   (forall sch l, D l = true -> st (run sch (init m0 (prog calls))) l = m0 l).
 Proof. exact statics_and_descr_imply_irrelevant. Qed.
 Print Assumptions C19_statics_and_descr_imply_irrelevant.
+
+(* -- round 3 (Conc/DescrClosure.v, seeded change C19-5: a per-type cache behind a new pointer field of the
+      SET specifics).  (1) D as the union of the parts of all descriptors: the specifics and the maps behind
+      them are parts like the member table; (2) pointer closure: nothing outside D becomes reachable through
+      D while nobody writes D. -- *)
+
+(* [descr_unchanged] of the union of parts = no listed part of no listed descriptor is in the write set *)
+Theorem C19_descr_unchanged_parts : forall (L : layout) (tds : list nat) (ps : list part) (s : step),
+  descr_unchanged (image_of L tds ps) s <->
+  (forall d p l, In d tds -> In p ps -> In l (L d p) -> ~ In l (writes s)).
+Proof. exact descr_unchanged_parts. Qed.
+Print Assumptions C19_descr_unchanged_parts.
+
+(* the instance asked for: a store into the specifics of any descriptor falsifies the hypothesis *)
+Theorem C19_specifics_write_breaks : forall (L : layout) (tds : list nat) (ps : list part) d l (s : step),
+  In d tds -> In PSpecifics ps -> In l (L d PSpecifics) -> In l (writes s) ->
+  ~ descr_unchanged (image_of L tds ps) s.
+Proof. exact specifics_write_breaks. Qed.
+Print Assumptions C19_specifics_write_breaks.
+
+(* a pointer-closed image stays pointer-closed along every interleaving (complete or not) when no step writes it *)
+Theorem C19_closure_invariant : forall (ptr : val -> option loc) (D : loc -> bool) (P : tid -> list step) m0,
+  (forall t s, In s (P t) -> descr_unchanged D s) ->
+  closed ptr D m0 ->
+  forall sch, closed ptr D (st (run sch (init m0 P))).
+Proof. exact closure_invariant. Qed.
+Print Assumptions C19_closure_invariant.
+
+(* so whatever a codec reaches from descriptor roots by following stored pointers lies in D, at every point of
+   every schedule, and is never a thread-private location: memory outside D cannot become shared through D *)
+Theorem C19_no_private_reachable : forall (ptr : val -> option loc) (D : loc -> bool) (cls : loc -> region)
+    (P : tid -> list step) m0 (roots : loc -> Prop),
+  (forall l t, D l = true -> cls l <> Priv t) ->
+  (forall t s, In s (P t) -> descr_unchanged D s) ->
+  closed ptr D m0 -> (forall l, roots l -> D l = true) ->
+  forall sch l t, reach ptr (st (run sch (init m0 P))) roots l -> cls l <> Priv t.
+Proof. exact no_private_reachable. Qed.
+Print Assumptions C19_no_private_reachable.
+
+(* the hypothesis cannot be dropped: "allocate at first use and keep the pointer in the specifics" (C19-5) leaves an
+   image that is no longer closed, with a private location of thread 0 reachable from the descriptor *)
+Theorem C19_publish_breaks :
+  closed pb_ptr pb_D pb_m0 /\
+  ~ descr_unchanged pb_D pb_publish /\
+  ~ closed pb_ptr pb_D (st (run [0] (init pb_m0 pb_P))) /\
+  reach pb_ptr (st (run [0] (init pb_m0 pb_P))) (fun l => l = 9%positive) 20%positive /\
+  pb_cls 20%positive = Priv 0.
+Proof. exact publish_breaks. Qed.
+Print Assumptions C19_publish_breaks.
